@@ -1,6 +1,7 @@
 package main
 
 import (
+	"go/ast"
 	"go/constant"
 	"go/token"
 	"go/types"
@@ -1675,5 +1676,458 @@ func runR146(c *Ctx) {
 				c.Pass(name, "failure-reported", c.Pos(fn.Pos()), "no failure path returns a provably nil error")
 			}
 		})
+	}
+}
+
+// ---------------------------------------------------------------------------
+// R18.5 (AST level: cmd/bb_storage does not type-check completely under
+// plain `go build`, so there is no SSA for it; identifiers are still resolved
+// through types.Info)
+
+func init() {
+	register(&Rule{
+		ID: "R18.5", Props: []string{"C18"}, Engine: "wiring (AST + types.Info, cmd/bb_storage)",
+		Text: "only authorizing backends are served: in cmd/bb_storage every storage backend handed to a grpcservers.New…Server constructor is a variable that is only ever assigned the result of blobstore.NewAuthorizingBlobAccess (through the helper functions that build it); in those helpers the Get, Put and FindMissing authorizers given to NewAuthorizingBlobAccess are built from the GetAuthorizer, PutAuthorizer and FindMissingAuthorizer fields of the configuration, in that order, and NewAuthorizingBlobAccess stores them in the fields that Get/Put/FindMissing consult",
+		Floor: 8, MustExist: true, Run: runR185,
+	})
+}
+
+func runR185(c *Ctx) {
+	pkg := c.Pkg("cmd/bb_storage")
+	if pkg == nil || pkg.TypesInfo == nil {
+		c.Broken("cmd/bb_storage not loaded")
+		return
+	}
+	info := pkg.TypesInfo
+	calleeOf := func(call *ast.CallExpr) types.Object {
+		switch f := call.Fun.(type) {
+		case *ast.Ident:
+			return info.Uses[f]
+		case *ast.SelectorExpr:
+			return info.Uses[f.Sel]
+		}
+		return nil
+	}
+	isFunc := func(o types.Object, pkgRel, name string) bool {
+		return o != nil && o.Pkg() != nil && o.Pkg().Path() == modPath+"/"+pkgRel && o.Name() == name
+	}
+	// definitions: variable object -> (call that defined it, tuple index)
+	type def struct {
+		call *ast.CallExpr
+		idx  int
+	}
+	defs := map[types.Object]def{}
+	assigns := map[types.Object][]ast.Expr{} // plain `v = expr`
+	for _, f := range pkg.Syntax {
+		ast.Inspect(f, func(n ast.Node) bool {
+			as, ok := n.(*ast.AssignStmt)
+			if !ok {
+				return true
+			}
+			if len(as.Rhs) == 1 {
+				if call, ok := as.Rhs[0].(*ast.CallExpr); ok && len(as.Lhs) >= 1 {
+					for i, l := range as.Lhs {
+						if id, ok := l.(*ast.Ident); ok {
+							if o := info.Defs[id]; o != nil {
+								defs[o] = def{call, i}
+							} else if o := info.Uses[id]; o != nil && len(as.Lhs) == 1 {
+								assigns[o] = append(assigns[o], as.Rhs[0])
+							} else if o != nil {
+								defs[o] = def{call, i} // re-assignment from a tuple
+							}
+						}
+					}
+					return true
+				}
+			}
+			if len(as.Lhs) == len(as.Rhs) {
+				for i, l := range as.Lhs {
+					if id, ok := l.(*ast.Ident); ok {
+						if o := info.Uses[id]; o != nil {
+							assigns[o] = append(assigns[o], as.Rhs[i])
+						}
+					}
+				}
+			}
+			return true
+		})
+	}
+	// (1) helper functions returning NewAuthorizingBlobAccess(...) at result index j
+	type helper struct {
+		obj types.Object
+		idx int
+	}
+	var helpers []helper
+	want := []string{"", "GetAuthorizer", "PutAuthorizer", "FindMissingAuthorizer"}
+	for _, f := range pkg.Syntax {
+		for _, d := range f.Decls {
+			fd, ok := d.(*ast.FuncDecl)
+			if !ok || fd.Body == nil {
+				continue
+			}
+			fname := "cmd/bb_storage." + fd.Name.Name
+			ast.Inspect(fd.Body, func(n ast.Node) bool {
+				if _, isLit := n.(*ast.FuncLit); isLit {
+					return false
+				}
+				ret, ok := n.(*ast.ReturnStmt)
+				if !ok {
+					return true
+				}
+				for j, r := range ret.Results {
+					call, ok := r.(*ast.CallExpr)
+					if !ok || !isFunc(calleeOf(call), "pkg/blobstore", "NewAuthorizingBlobAccess") {
+						continue
+					}
+					helpers = append(helpers, helper{info.Defs[fd.Name], j})
+					for k := 1; k < len(call.Args) && k < len(want); k++ {
+						a := call.Args[k]
+						if id, ok := a.(*ast.Ident); ok && id.Name == "nil" && info.Uses[id] == types.Universe.Lookup("nil") {
+							c.PassTrivial(fname, "authorizer-role-"+want[k], c.Pos(a.Pos()), "no authorizer for this operation")
+							continue
+						}
+						good := false
+						if id, ok := a.(*ast.Ident); ok {
+							if d, ok := defs[info.Uses[id]]; ok && d.idx == 0 && len(d.call.Args) > 0 {
+								if sel, ok := d.call.Args[0].(*ast.SelectorExpr); ok && sel.Sel.Name == want[k] {
+									if o := calleeOf(d.call); o != nil && o.Name() == "NewAuthorizerFromConfiguration" {
+										good = true
+									}
+								}
+							}
+						}
+						c.Check(good, fname, "authorizer-role-"+want[k], c.Pos(a.Pos()), "built from configuration."+want[k], "the authorizer passed to NewAuthorizingBlobAccess in the position that guards "+want[k][:len(want[k])-len("Authorizer")]+"() is not the one built from configuration."+want[k]+": that operation is checked against another operation's policy")
+					}
+				}
+				return true
+			})
+		}
+	}
+	if len(helpers) == 0 {
+		c.Fail("cmd/bb_storage", "authorizing-helper", "-", "no function of cmd/bb_storage returns blobstore.NewAuthorizingBlobAccess(…)")
+		return
+	}
+	isHelperResult := func(o types.Object) bool {
+		d, ok := defs[o]
+		if !ok {
+			return false
+		}
+		co := calleeOf(d.call)
+		for _, h := range helpers {
+			if h.obj == co && h.idx == d.idx {
+				return true
+			}
+		}
+		return false
+	}
+	// (2) every backend given to a grpcservers constructor
+	for _, f := range pkg.Syntax {
+		ast.Inspect(f, func(n ast.Node) bool {
+			call, ok := n.(*ast.CallExpr)
+			if !ok {
+				return true
+			}
+			o := calleeOf(call)
+			if o == nil || o.Pkg() == nil || o.Pkg().Path() != modPath+"/pkg/blobstore/grpcservers" || len(call.Args) == 0 {
+				return true
+			}
+			sig, ok := o.Type().(*types.Signature)
+			if !ok || sig.Params().Len() == 0 {
+				return true
+			}
+			if n, ok := sig.Params().At(0).Type().(*types.Named); !ok || n.Obj().Name() != "BlobAccess" {
+				return true
+			}
+			site := o.Name()
+			id, ok := call.Args[0].(*ast.Ident)
+			if !ok {
+				c.Fail("cmd/bb_storage.main", "served-backend-"+site, c.Pos(call.Pos()), "the backend handed to "+site+" is not a plain variable; its origin cannot be established")
+				return true
+			}
+			v := info.Uses[id]
+			good := v != nil
+			nAssign := 0
+			if isHelperResult(v) {
+				nAssign++
+			}
+			for _, rhs := range assigns[v] {
+				nAssign++
+				rid, ok := rhs.(*ast.Ident)
+				if !ok || !isHelperResult(info.Uses[rid]) {
+					good = false
+				}
+			}
+			if nAssign == 0 {
+				good = false
+			}
+			c.Check(good, "cmd/bb_storage.main", "served-backend-"+site, c.Pos(call.Pos()), "only ever assigned an authorizing backend", "the backend served by "+site+" can be a value that did not come from blobstore.NewAuthorizingBlobAccess: requests to this service reach storage without any authorization check")
+			return true
+		})
+	}
+	// (3) the constructor stores each authorizer in the field its position stands for
+	ctor := c.Func("pkg/blobstore", "NewAuthorizingBlobAccess")
+	if ctor == nil {
+		c.Broken("blobstore.NewAuthorizingBlobAccess not found")
+		return
+	}
+	for k, fld := range []string{"", "getAuthorizer", "putAuthorizer", "findMissingAuthorizer"} {
+		if k == 0 {
+			continue
+		}
+		got := ctorFieldOfParam(ctor, k)
+		c.Check(got == fld, FuncName(ctor), "ctor-role-"+fld, c.Pos(ctor.Pos()), "parameter → "+fld, "NewAuthorizingBlobAccess stores its authorizer parameter #"+string(rune('0'+k))+" in field "+got+" instead of "+fld)
+	}
+}
+
+// ---------------------------------------------------------------------------
+// R02.8 (includes the designed R07.7)
+
+func init() {
+	register(&Rule{
+		ID: "R02.8", Props: []string{"C02", "C03", "C07", "C01"}, Engine: "flow (constructor wiring, configuration package)",
+		Text: "the persistent local store is wired as one unit: in newNestedBlobAccessBare the lock given to NewPeriodicSyncer is the very lock given to NewFlatBlobAccess and NewHierarchicalInstanceNamesLocalBlobAccess; the block list given to the syncer is the one the location-blob map is built on; the state store the syncer writes is the one the state was read from; the hash initialisation written into the state is the one the key-location map uses; on block devices the data syncer is the Sync method of the device the block allocator writes to; and both syncer loops are started – ProcessBlockRelease in a goroutine that calls it for ever, ProcessBlockPut in a routine of the termination group that calls it until it returns false",
+		Floor: 7, MustExist: true, Run: runR028,
+	})
+}
+
+func runR028(c *Ctx) {
+	bare := c.Method(configurationRel, "simpleNestedBlobAccessCreator", "newNestedBlobAccessBare")
+	if bare == nil {
+		c.Broken("newNestedBlobAccessBare not found")
+		return
+	}
+	name := FuncName(bare)
+	find := func(pkgRel, fn string) []*ssa.Call {
+		var out []*ssa.Call
+		allInstrs(bare, func(ins ssa.Instruction) {
+			cl, ok := ins.(*ssa.Call)
+			if !ok {
+				return
+			}
+			if sc := cl.Call.StaticCallee(); sc != nil && sc.Name() == fn && sc.Pkg != nil && sc.Pkg.Pkg.Path() == modPath+"/"+pkgRel {
+				out = append(out, cl)
+			}
+			if cl.Call.IsInvoke() && cl.Call.Method.Name() == fn {
+				out = append(out, cl)
+			}
+		})
+		return out
+	}
+	argByType := func(cl *ssa.Call, pred func(t types.Type) bool) ssa.Value {
+		for _, a := range cl.Call.Args {
+			if pred(stripConv(a).Type()) || pred(a.Type()) {
+				return a
+			}
+		}
+		return nil
+	}
+	isLock := func(t types.Type) bool {
+		if p, ok := t.(*types.Pointer); ok {
+			if n, ok := p.Elem().(*types.Named); ok && n.Obj().Pkg() != nil && n.Obj().Pkg().Path() == "sync" {
+				return true
+			}
+		}
+		return false
+	}
+	// root: strip conversions, resolve single-store cells and single-edge phis
+	var root func(v ssa.Value, depth int) []ssa.Value
+	root = func(v ssa.Value, depth int) []ssa.Value {
+		v = stripConv(v)
+		if depth > 6 {
+			return []ssa.Value{v}
+		}
+		switch x := v.(type) {
+		case *ssa.Phi:
+			var out []ssa.Value
+			for _, e := range x.Edges {
+				out = append(out, root(e, depth+1)...)
+			}
+			return out
+		case *ssa.UnOp:
+			if x.Op == token.MUL {
+				if al, ok := x.X.(*ssa.Alloc); ok {
+					var out []ssa.Value
+					for _, s := range cellStores(al) {
+						out = append(out, root(s, depth+1)...)
+					}
+					if len(out) > 0 {
+						return out
+					}
+				}
+			}
+		}
+		return []ssa.Value{v}
+	}
+	contains := func(vs []ssa.Value, w ssa.Value) bool {
+		for _, v := range vs {
+			if v == w {
+				return true
+			}
+		}
+		return false
+	}
+	syncers := find(localRel, "NewPeriodicSyncer")
+	if len(syncers) != 1 {
+		c.Fail(name, "syncer", c.Pos(bare.Pos()), "expected exactly one NewPeriodicSyncer call in the configuration of the local backend")
+		return
+	}
+	ps := syncers[0]
+	// (a) one lock
+	sLock := argByType(ps, isLock)
+	for _, ctorName := range []string{"NewFlatBlobAccess", "NewHierarchicalInstanceNamesLocalBlobAccess"} {
+		cs := find(localRel, ctorName)
+		if len(cs) == 0 {
+			c.Fail(name, "one-lock-"+ctorName, c.Pos(bare.Pos()), "no call to "+ctorName+" found")
+			continue
+		}
+		for _, cl := range cs {
+			l := argByType(cl, isLock)
+			c.Check(l != nil && sLock != nil && stripConv(l) == stripConv(sLock), name, "one-lock-"+ctorName, c.Pos(cl.Pos()), "store and syncer share one lock", "the lock given to "+ctorName+" is not the lock given to NewPeriodicSyncer: the syncer snapshots and acknowledges persistent state without excluding uploads and lookups, so the state file can describe data that is not there")
+		}
+	}
+	// (b) one block list
+	lbm := find(localRel, "NewOldCurrentNewLocationBlobMap")
+	if len(lbm) == 1 && len(ps.Call.Args) > 0 {
+		src := root(ps.Call.Args[0], 0)
+		bl := root(lbm[0].Call.Args[0], 0)
+		shared := false
+		for _, s := range src {
+			if contains(bl, s) {
+				shared = true
+			}
+		}
+		c.Check(shared, name, "one-block-list", c.Pos(ps.Pos()), "the syncer persists the block list the store writes to", "the block list given to NewPeriodicSyncer is not the one NewOldCurrentNewLocationBlobMap is built on: the persisted state describes a different list than the one that holds the data")
+	} else {
+		c.Fail(name, "one-block-list", c.Pos(bare.Pos()), "expected exactly one NewOldCurrentNewLocationBlobMap call")
+	}
+	// (c) one state store
+	reads := find(localRel, "ReadPersistentState")
+	okStore := false
+	if len(reads) == 1 {
+		var recv ssa.Value
+		if reads[0].Call.IsInvoke() {
+			recv = reads[0].Call.Value
+		} else if len(reads[0].Call.Args) > 0 {
+			recv = reads[0].Call.Args[0]
+		}
+		for _, a := range ps.Call.Args {
+			if recv != nil && stripConv(a) == stripConv(recv) {
+				okStore = true
+			}
+		}
+	}
+	c.Check(okStore, name, "one-state-store", c.Pos(ps.Pos()), "the state is written where it was read from", "the persistent state store given to NewPeriodicSyncer is not the one ReadPersistentState was called on: after a restart the store reloads a state file the syncer never updated")
+	// (d) one hash initialisation
+	klm := find(localRel, "NewHashingKeyLocationMap")
+	okHash := false
+	if len(klm) == 1 {
+		isU64 := func(t types.Type) bool {
+			b, ok := t.Underlying().(*types.Basic)
+			return ok && b.Kind() == types.Uint64
+		}
+		a, b := argByType(ps, isU64), argByType(klm[0], isU64)
+		if a != nil && b != nil {
+			for _, ra := range root(a, 0) {
+				if contains(root(b, 0), ra) {
+					okHash = true
+				}
+			}
+		}
+	}
+	c.Check(okHash, name, "one-hash-initialisation", c.Pos(ps.Pos()), "the persisted hash initialisation is the one in use", "the hash initialisation the syncer writes into the state file is not the value the key-location map was built with: after a restart every key hashes elsewhere and the restored blocks hold objects nobody can find (or finds wrongly)")
+	// (e) data syncer of the device that holds the blocks
+	alloc := find(localRel, "NewBlockDeviceBackedBlockAllocator")
+	okSync := false
+	if len(alloc) == 1 && len(alloc[0].Call.Args) > 0 {
+		dev := stripConv(alloc[0].Call.Args[0])
+		var ds ssa.Value
+		for _, a := range ps.Call.Args {
+			if _, ok := a.Type().Underlying().(*types.Signature); ok {
+				ds = a
+			}
+		}
+		if ds != nil {
+			for _, r := range root(ds, 0) {
+				if mc, ok := r.(*ssa.MakeClosure); ok && len(mc.Bindings) == 1 {
+					if f, ok := mc.Fn.(*ssa.Function); ok && f.Synthetic != "" && len(f.Name()) >= 4 && f.Name()[:4] == "Sync" {
+						for _, b := range root(mc.Bindings[0], 0) {
+							if b == dev || contains(root(dev, 0), b) {
+								okSync = true
+							}
+						}
+					}
+				}
+			}
+		}
+	}
+	c.Check(okSync, name, "data-syncer", c.Pos(ps.Pos()), "the data syncer is Sync of the block device that holds the blocks", "the data syncer given to NewPeriodicSyncer is not the Sync method of the block device handed to NewBlockDeviceBackedBlockAllocator: state files are written for data that was never flushed")
+	// (f) both loops
+	for _, m := range []struct {
+		meth    string
+		forever bool
+	}{{"ProcessBlockRelease", true}, {"ProcessBlockPut", false}} {
+		okLoop := false
+		var at token.Pos = bare.Pos()
+		for _, g := range bare.AnonFuncs {
+			allInstrs(g, func(ins ssa.Instruction) {
+				cl, ok := ins.(*ssa.Call)
+				if !ok || cl.Call.StaticCallee() == nil || cl.Call.StaticCallee().Name() != m.meth {
+					return
+				}
+				if !contains(root(captureOrigin(g, cl.Call.Args[0]), 0), ssa.Value(ps)) {
+					return
+				}
+				// the call sits in a cycle
+				blk := cl.Block()
+				seen := map[*ssa.BasicBlock]bool{}
+				var reach func(b *ssa.BasicBlock) bool
+				reach = func(b *ssa.BasicBlock) bool {
+					for _, s := range b.Succs {
+						if s == blk {
+							return true
+						}
+						if !seen[s] {
+							seen[s] = true
+							if reach(s) {
+								return true
+							}
+						}
+					}
+					return false
+				}
+				if !reach(blk) {
+					return
+				}
+				// the closure is started: bound into a `go` statement or handed to a Go(...) method
+				started := false
+				allInstrs(bare, func(pi ssa.Instruction) {
+					switch x := pi.(type) {
+					case *ssa.Go:
+						if mc, ok := x.Call.Value.(*ssa.MakeClosure); ok && mc.Fn == ssa.Value(g) {
+							started = true
+						}
+					case *ssa.Call:
+						for _, a := range x.Call.Args {
+							if mc, ok := stripConv(a).(*ssa.MakeClosure); ok && mc.Fn == ssa.Value(g) {
+								nm := ""
+								if x.Call.IsInvoke() {
+									nm = x.Call.Method.Name()
+								} else if sc := x.Call.StaticCallee(); sc != nil {
+									nm = sc.Name()
+								}
+								if nm == "Go" {
+									started = true
+								}
+							}
+						}
+					}
+				})
+				if started {
+					okLoop = true
+					at = cl.Pos()
+				}
+			})
+		}
+		c.Check(okLoop, name, "loop-"+m.meth, c.Pos(at), m.meth+" runs in a loop of a started routine", "PeriodicSyncer."+m.meth+" is not called in a loop of a goroutine / termination-group routine started here: "+map[bool]string{true: "released blocks are never followed by a state write, so their space is never handed back", false: "uploads are never followed by a sync and a state write; nothing survives a restart"}[m.forever])
 	}
 }
